@@ -332,7 +332,8 @@ def make_dataset(d, spec=None):
     else:
         truth['wmi_file'] = None
     if s['similar']:
-        sim = np.eye(nt) + 0.125 * (np.arange(nt)[:, None] + np.arange(nt)[None, :])
+        # not symmetric (a similarity score need not be)
+        sim = np.eye(nt) + 0.125 * (np.arange(nt)[:, None] + 2 * np.arange(nt)[None, :])
         if s['content'] == 'nan_similar':
             sim[0, 1] = np.nan
         truth['similar_templates'] = sim
